@@ -144,4 +144,14 @@ def locatePrefix (d : T) (q : Str) : Option (Nat × Nat) :=
             | none => none
             | some cnt => some (left, cnt + (rightBucket - 1) * d.bucketsize)
 
+/-- `StringDictionaryPFC::extractPrefix`: `some none` = NULL (no member starts with the pattern). -/
+def extractPrefix (d : T) (q : Str) : Option (Option (List Str)) :=
+  match locatePrefix d q with
+  | none => none
+  | some (left, right) =>
+    if left = 0 then some none
+    else match scanRange d left right with
+      | none => none
+      | some l => some (some l)
+
 end CSD.PFC
